@@ -134,8 +134,12 @@ pub const OPS: [&str; 6] = ["new", "configure", "read_card", "begin", "commit", 
 
 /// Terminal transcript of the fault-free run of an operation: (kind, occurrence, packets) per request.
 pub fn dry_run(op: &str, cfg: &CfgSpec) -> Vec<(Kind, usize, usize)> {
+    dry_run_with(op, cfg, None)
+}
+pub fn dry_run_with(op: &str, cfg: &CfgSpec, dangling: Option<u64>) -> Vec<(Kind, usize, usize)> {
     let mut sc = base_scenario(op, cfg.clone());
     sc.sim.intermediates = 1;
+    sc.sim.dangling = dangling;
     let tr = run_scenario(&sc);
     if sc.observe_new {
         transcript(&tr, tr.new_reqs.0, tr.new_reqs.1)
@@ -154,12 +158,18 @@ pub fn stall_scenarios(op: &str, cfg: &CfgSpec) -> Vec<(Scenario, bool)> {
     stall_scenarios_with(op, cfg, None)
 }
 pub fn stall_scenarios_with(op: &str, cfg: &CfgSpec, intermediate: Option<&str>) -> Vec<(Scenario, bool)> {
+    stall_scenarios_full(op, cfg, intermediate, None)
+}
+/// `dangling`: the terminal holds a pre-authorisation no token knows about, so the clean-up (pending query, reversal of the
+/// reported receipt, end-of-day) has a reversal exchange in which it can stall as well
+pub fn stall_scenarios_full(op: &str, cfg: &CfgSpec, intermediate: Option<&str>, dangling: Option<u64>) -> Vec<(Scenario, bool)> {
     let mut out = vec![];
-    let script = dry_run(op, cfg);
+    let script = dry_run_with(op, cfg, dangling);
     let mk = |plan: Vec<PlanEntry>, connect_plan: Vec<ConnectBehaviour>, connect_default: ConnectBehaviour| {
         let mut sc = base_scenario(op, cfg.clone());
         sc.sim.intermediates = 1;
         sc.sim.intermediate_body = intermediate.map(|s| s.to_string());
+        sc.sim.dangling = dangling;
         sc.plan = plan;
         sc.connect_plan = connect_plan;
         sc.connect_default = connect_default;
@@ -235,6 +245,19 @@ pub fn run(tier: Tier) -> i32 {
         }
     });
     stats.merge(s);
+    // 1b. the same with a dangling pre-authorisation in the terminal (the clean-up then contains a reversal exchange)
+    let s = ctx.shards("stalls-dangling", OPS.len() as u64, |i, _seed, st| {
+        let op = OPS[i as usize];
+        if matches!(op, "read_card" | "begin") {
+            return;
+        }
+        for (sc, nt) in stall_scenarios_full(op, &cfg0, None, Some(4242)).iter() {
+            st.case(*nt, fnv(&serde_json::to_vec(sc).unwrap()));
+            st.class(&format!("stall-with-dangling-pre-authorisation:{op}"));
+            ctx.record(check_returns(sc), st);
+        }
+    });
+    stats.merge(s);
     // 2. read_card_timeout 0..=255 exhaustively: plain call, silent terminal, and "answers at t+1" (no collapse)
     let s = ctx.shards("rct", 16, |i, _seed, st| {
         let mut t = i as u32;
@@ -269,10 +292,10 @@ pub fn run(tier: Tier) -> i32 {
             0usize..=3,
         )
             .prop_map(|(terminal_id, password, currency, amount, rct, max)| CfgSpec { terminal_id, serial: "17FD1E3C".into(), password, currency, amount, rct, max });
-        let strat = (cfg, 0usize..6, any::<u16>(), any::<bool>(), 0usize..INTERMEDIATES.len());
-        ctx.proptest(seed, n / 16, &strat, st, |(cfg, opi, sel, none, bi), st| {
+        let strat = (cfg, 0usize..6, any::<u16>(), any::<bool>(), 0usize..INTERMEDIATES.len(), proptest::option::weighted(0.3, 1u64..=9999));
+        ctx.proptest(seed, n / 16, &strat, st, |(cfg, opi, sel, none, bi, dangling), st| {
             let op = OPS[*opi];
-            let scs = stall_scenarios_with(op, cfg, if *bi == 0 { None } else { Some(INTERMEDIATES[*bi]) });
+            let scs = stall_scenarios_full(op, cfg, if *bi == 0 { None } else { Some(INTERMEDIATES[*bi]) }, *dangling);
             let (sc, nt) = if *none || scs.is_empty() { (base_scenario(op, cfg.clone()), false) } else { scs[(*sel as usize * scs.len()) >> 16].clone() };
             st.case(nt, fnv(&serde_json::to_vec(&sc).unwrap()));
             st.class(&format!("sampled:{op}"));
@@ -283,7 +306,7 @@ pub fn run(tier: Tier) -> i32 {
     stats.exhaustive_parts = vec!["every packet position (ack and each reply, header-only variant, once / on every attempt) of every exchange in the fault-free transcript of each of the 6 operations, plus stalls in the handshake of a forced reconnect and in connect()".into(), "read_card_timeout 0..=255 x {plain, silent terminal, answer at t+1}".into()];
     ctx.finish(
         stats,
-        "the real Feig client against the simulated terminal on tokio's paused clock. Positions come from a fault-free dry run of each operation (handshake included); one stall {silence, packet header then silence} x {once, on every attempt} per position, each with the terminal's intermediate status carrying time-out byte 00 / absent / 99 / 02 / status ff; stalls in the handshake of a forced reconnect; connect() never completing / refused; read_card_timeout 0..=255 exhaustively incl. a terminal answering t+1 s after its ack; proptest-sampled configurations (password, currency, amount, terminal id, max transactions) x stalls. Oracle: under a one-virtual-day watchdog the call returns, without panic, within S(op)*20*3*(T+2) virtual seconds, and a timeout inside the configured window does not abandon the exchange. non-trivial = stall inside a handshake or at a reply position >= 1, or read_card_timeout in {0,253,254,255}; distinct by scenario",
+        "the real Feig client against the simulated terminal on tokio's paused clock. Positions come from a fault-free dry run of each operation (handshake included); one stall {silence, packet header then silence} x {once, on every attempt} per position, also with a dangling pre-authorisation in the terminal (stalls inside the clean-up's reversal exchange), each with the terminal's intermediate status carrying time-out byte 00 / absent / 99 / 02 / status ff; stalls in the handshake of a forced reconnect; connect() never completing / refused; read_card_timeout 0..=255 exhaustively incl. a terminal answering t+1 s after its ack; proptest-sampled configurations (password, currency, amount, terminal id, max transactions) x stalls. Oracle: under a one-virtual-day watchdog the call returns, without panic, within S(op)*20*3*(T+2) virtual seconds, and a timeout inside the configured window does not abandon the exchange. non-trivial = stall inside a handshake or at a reply position >= 1, or read_card_timeout in {0,253,254,255}; distinct by scenario",
         &["time is tokio's paused clock: 'does not return' is decided in virtual time, never by wall clock", "a terminal that keeps sending a packet every 59 s forever is not a stall in the property's sense and is not generated", "in-memory duplex streams; only the current_thread runtime is explored (Feig is driven through &mut self and spawns nothing)"],
         false,
     )
